@@ -463,6 +463,8 @@ struct target {
 	struct type *typevalist;
 	struct type *typewchar;
 	int signedchar;
+	/* whether unnamed bit-fields contribute to the alignment of the struct (AAPCS64) */
+	int unnamedbitalign;
 };
 
 extern const struct target *targ;
